@@ -152,7 +152,7 @@ impl Property for C11 {
          rule patterns and prefixes; keys of all types. Enumerated: the full two-character table over {\\ \" n LF t TAB u /} in each of 16 \
          string fields, and every Unicode scalar value (256 per case) in captured tool output and in an environment key. Oracle: (1) a \
          signature made with ring directly over OLPC-canonical-JSON(to_value(metadata)) (harness encoder: only \\ and \" escaped, raw UTF-8) \
-         and attached to the wire document is accepted by Metablock::verify; (2) the Ed25519 signature the library makes equals ring's \
+         and attached to the wire document is accepted by Metablock::verify; (2) every signing entry point (Metablock::new, MetablockBuilder::sign, LinkMetadataBuilder::signed::<Json> and ::<JsonPretty>) signs those bytes, and the Ed25519 signature the library makes equals ring's \
          signature over those reference bytes; (3) key_id == hex(sha256(OLPC(key description))). Non-trivial: some signed string contains a \
          character outside printable ASCII or a backslash/quote; distinct by document. History: before anything is signed, in half of the cases the same JSON tree is first written by the strict canonical writer (Json::canonicalize) and/or a canonicalisation of the tree extended by a trailing member 1.5 fails half-way, in the same process."
             .into()
@@ -295,6 +295,31 @@ impl Property for C11 {
                         "library signs the reference encoding");
                 } else if spec.key.is_deterministic() && libsig != sig {
                     o.fail("C11/sign/ed25519-signature-differs", "library Ed25519 signature != ring signature over reference bytes", "equal");
+                }
+            }
+        }
+        // (2b) the other signing entry points sign the same reference bytes
+        {
+            use in_toto::interchange::{Json, JsonPretty};
+            use in_toto::models::MetablockBuilder;
+            let mut others: Vec<(&str, Result<Metablock, String>)> = vec![(
+                "MetablockBuilder::sign",
+                MetablockBuilder::from_metadata(meta.clone().into_trait()).sign(&[&*sk]).map(|b| b.build()).map_err(|e| e.to_string()),
+            )];
+            if let Doc::Link(l) = &spec.doc {
+                others.push(("LinkMetadataBuilder::signed::<Json>", l.to_builder().signed::<Json>(&sk).map_err(|e| e.to_string())));
+                others.push(("LinkMetadataBuilder::signed::<JsonPretty>", l.to_builder().signed::<JsonPretty>(&sk).map_err(|e| e.to_string())));
+            }
+            for (path, r) in others {
+                match r {
+                    Err(e) => o.fail(format!("C11/sign/error/{}", path), e, "a signed block"),
+                    Ok(mb) => {
+                        o.evals += 1;
+                        let libsig = mb.signatures.first().map(|s| s.value().as_bytes().to_vec()).unwrap_or_default();
+                        if mb.metadata == meta && !ring_verify(&spec.key, &reference, &libsig) {
+                            o.fail(format!("C11/sign/not-over-reference-bytes/{}", path), format!("signature made through {} does not verify over the reference bytes", path), "every signing entry point signs the reference encoding");
+                        }
+                    }
                 }
             }
         }
